@@ -26,7 +26,8 @@ RULE = ("one case = one parsed config (treelib's generators with line bodies swa
         "- 11 patterns with named groups, type dicts of 0-4 keys incl. a key that is no group name and type None, defaults that equal "
         "a captured text, ops re_match_iter_typed / re_list_iter_typed, both recurse values (bucket gd-defect counts the cases where "
         "the first child does not match but a later one does); (st) edit states - parse (auto_commit on/off), one ConfigList.insert "
-        "at a boundary-biased index, optional commit, then the five ops on the objects of the last commit. "
+        "at a boundary-biased index, optional commit, then the five ops on the objects of the last commit (on a stale state all five, "
+        "CiscoConfParse.re_match_iter_typed included, must refuse). "
         "Generator blind spots closed with harness/covreport.py: about 1 in 8 gd queries passes a groupdict= that is neither None nor a dict "
         "(list / tuple of pairs, str, int, False, 0, [], set, a type), which both methods refuse with ValueError (model: gdDispatch); and half "
         "of ALL cases leave the keyword arguments that sit at their documented default (group=1, result_type=str, default='', "
@@ -42,14 +43,17 @@ LEVEL_TEXT = ("Theorems (Lean 4, all trees, all regex oracles, all IPv4 parsers)
               "The model is tied to the real methods by differential runs on every check. Outside the property's quantifier, modelled as "
               "the code is and measured the same way: the groupdict= path (iterDict_recurse; the defective recurse=False branch and the "
               "never-returning list variant as *_partial theorems; gdDispatch_spec: a groupdict that is neither None nor a dict is refused with ValueError) and the search_safe guard on Ccp.Edit states (stale_raises, "
-              "stale_states, root_on_committed; the unguarded config-level method as root_unguarded_partial).")
+              "stale_states, root_on_committed, root_guarded: the four object helpers AND the config-level CiscoConfParse.re_match_iter_typed raise "
+              "NotImplementedError on every stale state and never read an uncommitted line -- the config-level method had no guard, "
+              "finding FC07a, repaired in /repo; root_unguarded_partial is gone).")
 LEVEL_NOTE = ("Trusted: Lean kernel; axioms propext/Classical.choice/Quot.sound only; the correspondence harness. Python's re and IPv4Obj "
               "are parameters of the model (universally quantified in the theorems, supplied per request by calling re / IPv4Obj "
               "directly); float() is represented by its argument text plus a hand-written recogniser of accepted texts. The tree "
               "facts come from C03's theorems about the shared tree model (Ccp.Tree.parse), whose agreement with the real parser is "
               "measured by C01-C03. groupdict= requests and stale-config requests are outside the property (it speaks of 'the requested "
               "capture group' of a parsed config): the oracle does not judge groupdict answers at all (correspondence only) and, for "
-              "edit states, judges committed states like any parsed config and checks only that the guard fires on stale ones. The "
+              "edit states, judges committed states like any parsed config and checks only that the guard fires on stale ones (for all five "
+              "operations, the config-level one included, so dropping its guard again is a violation). The "
               "stale states exercised are parse + one ConfigList.insert (+ commit), through Ccp.Edit.step.")
 ASSUMPTIONS = [
     "re.search / Match.group are an oracle Str -> noMatch | noGroup | unset | val s, fixed per (regex, group)",
@@ -908,9 +912,10 @@ def _oracle_st(case, ans):
     res_w, stale, tree = ans.split("&")
     fails = []
     if stale == "1":
-        # the seatbelt: every object helper of a committed object refuses to answer on a stale config
+        # the seatbelt: every object helper of a committed object and the config-level method refuse to answer on a stale config
         for q, got in zip(case["queries"], res_w.split("|")):
-            if q["op"] != "root" and got not in ("oob", "err:NotImplementedError"):
+            # (the config-level CiscoConfParse.re_match_iter_typed included: it has the guard since the repair of FC07a)
+            if got not in ("oob", "err:NotImplementedError"):
                 fails.append("%s on a stale config answered %s" % (q["op"], show(got)))
         return fails[:3]
     return _oracle_plain(case, res_w + "&" + tree)
